@@ -798,7 +798,7 @@ static int runServer(const vf::Args &args, bool socketMode)
         double wall = (vf::nowNs() - w0) / 1e9;
         vf::out().line("{\"t\":\"hang\",\"mode\":" + vf::jstr(modeName) + ",\"id\":" + vf::jstr(c.id) + ",\"cuts\":[],\"cpu_ms\":" +
                        std::to_string((long)(cpu * 1000)) + ",\"wall_ms\":" + std::to_string((long)(wall * 1000)) +
-                       ",\"spinning\":" + (cpu > 0.6 * wall ? "true" : "false") + ",\"probe\":\"fresh connection not served\"}");
+                       ",\"spinning\":" + (cpu > std::min(5.0, 0.25 * wall) ? "true" : "false") + ",\"probe\":\"fresh connection not served\"}");
         vf::out().flush();
         _exit(97);
       }
